@@ -261,3 +261,21 @@ async fn c06_result_before_deadline_wins_when_polled_late_fixed() {
         assert_eq!(out.ok(), Some("inner result"), "the C06 defect is back: a call that finished before its deadline was reported as timed out");
     }
 }
+
+/// C15 / C02 (FIXED by "fix: sliding log limiter never reports a permit as taken when it has no capacity"): before the fix the
+/// sliding log answered Ok(Duration::ZERO) ("permit taken") from its two no-capacity fallbacks.
+#[tokio::test]
+async fn c15_sliding_log_without_capacity_admits_nothing_fixed() {
+    use tower_resilience_ratelimiter::{RateLimiterLayer, WindowType};
+    async fn admitted(limit: usize, period: Duration) -> usize {
+        let hits = Arc::new(AtomicUsize::new(0));
+        let h = Arc::clone(&hits);
+        let svc = tower::service_fn(move |_: ()| { let h = Arc::clone(&h); async move { h.fetch_add(1, Ordering::SeqCst); Ok::<(), std::io::Error>(()) } });
+        let layer = RateLimiterLayer::builder().limit_for_period(limit).refresh_period(period).timeout_duration(Duration::ZERO).window_type(WindowType::SlidingLog).build();
+        let mut s = layer.layer(svc);
+        for _ in 0..5 { let _ = s.ready().await.unwrap().call(()).await; }
+        hits.load(Ordering::SeqCst)
+    }
+    assert_eq!(admitted(0, Duration::from_millis(200)).await, 0, "the C15 defect is back: a limit of zero admitted calls");
+    assert_eq!(admitted(1, Duration::MAX).await, 1, "the C02 defect is back: one per 'forever' admitted more than one call");
+}
